@@ -37,6 +37,8 @@ type c02Content struct {
 	Ch  []c02Child `json:"ch"`
 	Inl []c02Inl   `json:"inl"`
 	Ref string     `json:"ref"`
+	// Broken: `null` written where an object of the kind MUST be (spec/Layout.tla IsBroken)
+	Broken bool `json:"broken"`
 }
 
 type c02File struct {
@@ -223,6 +225,9 @@ func c02Concrete(kind string, c c02Content) map[string]any {
 }
 
 func c02Content2JSON(kind string, c c02Content) map[string]any {
+	if c.Broken {
+		return nil
+	}
 	if c.Ref != "" {
 		return refObj(c.Ref)
 	}
@@ -653,7 +658,7 @@ func c02Load(tc *c02Case, allowExternal bool) *c02Loaded {
 		}
 		res.reads = []any{}
 		res.doc, res.err = loader.LoadFromFile(rootPath)
-	case "resolvein", "file_abs_toggled", "resolvein_toggled", "file_abs_retry", "resolvein_retry":
+	case "resolvein", "file_abs_toggled", "resolvein_toggled", "file_abs_retry", "resolvein_retry", "resolvein_again":
 		// histories of one Loader whose switch is changed between two uses (spec/Gen_C02.tla HistoryEntries)
 		if strings.HasSuffix(tc.Entry, "_toggled") {
 			lone, err := os.MkdirTemp("", "verif-c02-lone-")
@@ -673,6 +678,13 @@ func c02Load(tc *c02Case, allowExternal bool) *c02Loaded {
 			guard(func() { loader.LoadFromFile(rootPath) })
 		}
 		loader.IsExternalRefsAllowed = allowExternal
+		if tc.Entry == "resolvein_again" {
+			// an earlier ResolveRefsIn, on a parsed copy of its own, with no Load* in between
+			first := &openapi3.T{}
+			if json.Unmarshal(rootBytes, first) == nil {
+				guard(func() { loader.ResolveRefsIn(first, &url.URL{Path: filepath.ToSlash(rootPath)}) })
+			}
+		}
 		res.reads = []any{}
 		if strings.HasPrefix(tc.Entry, "resolvein") {
 			doc := &openapi3.T{}
